@@ -304,12 +304,16 @@ class Gaussian(Distribution):
             raise NotImplementedError("Gradient not implemented for distribution {} with geometry {}".format(self,self.geometry))
 
         if not callable(self.mean): # for prior
+            if np.ndim(self.prec) == 1: # scalar or diagonal precision
+                return -( self.prec * (val - self.mean) )
             return -( self.prec @ (val - self.mean).T )
         elif hasattr(self.mean, "gradient"): # for likelihood
             model = self.mean
             dev = val - model.forward(*args, **kwargs)
             if isinstance(dev, numbers.Number):
                 dev = np.array([dev])
+            if np.ndim(self.prec) == 1: # scalar or diagonal precision
+                return model.gradient(self.prec * dev, *args, **kwargs)
             return model.gradient(self.prec @ dev, *args, **kwargs)
         else:
             warnings.warn('Gradient not implemented for {}'.format(type(self.mean)))
